@@ -208,6 +208,7 @@ type Outcome struct {
 	WireFired bool   // the wire fault actually changed/cut bytes
 	Steps     int
 	Stuck     bool
+	Stray     []string // RPCs other than the transfer's own that the receiving transport decoded from this connection
 
 	Restored    bool
 	RestoreOpen error
@@ -356,16 +357,19 @@ func (e *Engine) Run(sp *Spec) *Outcome {
 		rc.Close()
 	}()
 	go func() {
-		defer close(recvDone)
-		select {
-		case rpc := <-B.cons:
-			out.RPCSeen = true
-			if r, ok := rpc.Command.(*raft.InstallSnapshotRequest); ok {
-				install(rpc, r, sp.Dest, out)
-			} else {
-				rpc.Respond(nil, errors.New("unexpected rpc"))
+		for {
+			select {
+			case rpc := <-B.cons:
+				if r, ok := rpc.Command.(*raft.InstallSnapshotRequest); ok && !out.RPCSeen {
+					out.RPCSeen = true
+					install(rpc, r, sp.Dest, out)
+					close(recvDone)
+					continue // stay around: anything else the transport decodes belongs to this transfer too
+				}
+				stray(rpc, out)
+			case <-cancel:
+				return
 			}
-		case <-cancel:
 		}
 	}()
 
@@ -483,10 +487,26 @@ func (e *Engine) Run(sp *Spec) *Outcome {
 			time.Sleep(500 * time.Millisecond)
 		}
 	}
+	// Let the receiving transport finish with what it already holds: after a
+	// rejected compressed stream raft's drain (io.Copy(io.Discard, rpc.Reader))
+	// goes through the failed decompressor and leaves raw bytes in the
+	// connection's buffer, which handleConn then decodes as the next RPC. Such
+	// an RPC belongs to THIS transfer; it must not be left queued for the next.
+	synctest.Wait()
 	close(cancel)
 	synctest.Wait()
 	if fwd != nil {
 		e.Net.Reset(fwd) // drop leftovers, let the acceptor's handler exit
+	}
+	for i := 0; i < 8; i++ {
+		synctest.Wait()
+		select {
+		case rpc := <-B.cons:
+			stray(rpc, out)
+			continue
+		default:
+		}
+		break
 	}
 	synctest.Wait()
 	if out.Stuck {
@@ -511,6 +531,25 @@ func (e *Engine) Run(sp *Spec) *Outcome {
 		out.Restored = true
 	}
 	return out
+}
+
+// stray answers an RPC that is not the transfer's InstallSnapshot request (raft
+// would hand it to its main loop) and records what it was.
+func stray(rpc raft.RPC, out *Outcome) {
+	d := fmt.Sprintf("%T", rpc.Command)
+	switch r := rpc.Command.(type) {
+	case *raft.InstallSnapshotRequest:
+		d += fmt.Sprintf("{term=%d size=%d}", r.Term, r.Size)
+	case *raft.AppendEntriesRequest:
+		d += fmt.Sprintf("{term=%d entries=%d}", r.Term, len(r.Entries))
+	case *raft.RequestVoteRequest:
+		d += fmt.Sprintf("{term=%d}", r.Term)
+	}
+	out.Stray = append(out.Stray, d)
+	if rpc.Reader != nil {
+		io.Copy(io.Discard, rpc.Reader)
+	}
+	rpc.Respond(nil, errors.New("stray rpc"))
 }
 
 // CleanRestoreTemps removes WAL scratch files snapshot.Restore leaves behind on failure.
